@@ -43,7 +43,11 @@ Payload(id) ==
     [] id = "U2" -> [ok |-> TRUE, items |-> <<KV("RLIMIT_CORE", "0:0"), KV("RLIMIT_NPROC", "7:7")>>]  \* "RLIMIT_CORE", "Rlimit_nproc"
     [] id = "U3" -> [ok |-> TRUE, items |-> <<KV("RLIMIT_AS", "9:1")>>]
     [] id = "U4" -> [ok |-> TRUE, items |-> <<KV("RLIMIT_STACK", "8:8")>>]
-    [] id = "Uempty" -> [ok |-> TRUE, items |-> <<>>]
+    [] id \in {"Uempty", "Dempty", "Mempty", "Cempty"} -> [ok |-> TRUE, items |-> <<>>]   \* present, describing nothing
+    [] id = "Uinf1" -> [ok |-> TRUE, items |-> <<KV("RLIMIT_NOFILE", "18446744073709551615:65536")>>]
+    [] id = "Uinf2" -> [ok |-> FALSE, items |-> <<>>]                                       \* soft unlimited, hard not
+    [] id = "Uinf3" -> [ok |-> TRUE, items |-> <<KV("RLIMIT_CORE", "18446744073709551615:18446744073709551615")>>]
+    [] id = "Uinf4" -> [ok |-> TRUE, items |-> <<KV("RLIMIT_AS", "9223372036854775808:1")>>]
     [] id \in {"Dbad", "Mbad", "Cbad", "Ubad", "Utype", "Uhardsoft", "Utype2"} -> [ok |-> FALSE, items |-> <<>>]
 
 Good(k) == CASE k = "dev" -> <<"D1", "D2", "D3", "D4">> [] k = "mnt" -> <<"M1", "M2", "M3", "M4">>
@@ -90,11 +94,23 @@ BadOnes ==
        b \in Bad(k), s \in {"ctr", "pod", "bare"}, nm \in {n, Other(n)},
        extra \in {{}, {Ann(k, "ctr", n, Good(k)[1])}, {Ann("dev", "pod", "", "D3"), Ann("ulim", "ctr", n, "U1")}}}
     : k \in Keys} : n \in {"c1", "a.b"}}
+EmptyId(k) == IF k = "dev" THEN "Dempty" ELSE IF k = "mnt" THEN "Mempty" ELSE "Cempty"
+EmptyRest(n, k, sp) ==
+  {{Ann(k, "bare", "", Good(k)[4])}, {Ann(k, "bare", "", Good(k)[4]), Ann("ulim", "ctr", n, "U1")}} \cup
+  (IF sp = "ctr" THEN {{Ann(k, "pod", "", Good(k)[3])}, {Ann(k, "pod", "", Good(k)[3]), Ann(k, "bare", "", Good(k)[4])}} ELSE {})
+EmptyCases(n, k, sp) ==
+  {[ctr |-> n, anns |-> {Ann(k, sp, IF sp = "ctr" THEN n ELSE "", EmptyId(k))} \cup rest] : rest \in EmptyRest(n, k, sp)}
+
 \* all four keys at once
 Combined ==
   {[ctr |-> n, anns |-> UNION {{Ann(k, sk[k], IF sk[k] = "ctr" THEN n ELSE "", Good(k)[1])} : k \in Keys}] :
      n \in Names, sk \in [Keys -> {"ctr", "pod", "bare"}]}
   \cup {[ctr |-> "c1", anns |-> {Ann("ulim", "ctr", "c1", "Uempty")}], [ctr |-> "c1", anns |-> {}]}
+  \* a present but empty annotation selects its scope: nothing of that kind is injected, less specific ones are not consulted
+  \cup UNION {EmptyCases(n, k, sp) : n \in {"c1", "a.b"}, k \in {"dev", "mnt", "cdi"}, sp \in {"ctr", "pod"}}
+  \* unlimited on either side of a limit
+  \cup {[ctr |-> "c1", anns |-> {Ann("ulim", "ctr", "c1", u)} \cup x] :
+          u \in {"Uinf1", "Uinf2", "Uinf3", "Uinf4"}, x \in {{}, {Ann("dev", "ctr", "c1", "D1")}}}
   \* every rlimit type in every spelling; names that are almost valid
   \cup {[ctr |-> "c1", anns |-> {Ann("ulim", "ctr", "c1", u)} \cup x] :
           u \in {"UallL", "UallP", "UallM", "Utype3", "Utype4", "Utype5", "Utype6", "Utype7", "Utype8"},
